@@ -68,6 +68,13 @@ def gen(rng, tier):
             yield "sw %s sign %s %d %d %s %s" % (every(1200), hx(hsh), level, ver, hx(b"anon"), hx(C07.reply(ver, 1, 0, good)))
             yield "sw multi:%d:%d:%d sign %s %d %d %s %s" % (rng.randrange(1 << 30), 25, rng.choice([10, 40, 120]), hx(hsh), level, ver, hx(b"anon"), hx(C07.reply(ver, 1, 0, good)))
         yield "sw all sign %s %d %d %s %s" % (hx(hsh), level, ver, hx(b"anon"), hx(C07.reply(ver, 1, 0x101, None)))
+        # the asynchronous and the high-availability service on a scripted socket (PDU v2, request id 1)
+        g2 = C07.aggregate(rng, hsh, level)
+        if C07.height(g2, level) <= 255:
+            yield "sw %s async %s %d %s %s" % (every(800), hx(hsh), level, hx(b"anon"), hx(C07.reply(2, 1, 0, g2)))
+            yield "sw %s ha %s %d %s %s" % (every(800), hx(hsh), level, hx(b"anon"), hx(C07.reply(2, 1, 0, g2)))
+            yield "sw multi:%d:%d:%d async %s %d %s %s" % (rng.randrange(1 << 30), 25, rng.choice([10, 40, 120]), hx(hsh), level, hx(b"anon"), hx(C07.reply(2, 1, 0, g2)))
+        yield "sw all async %s %d %s %s" % (hx(hsh), level, hx(b"anon"), hx(C07.reply(2, 1, 0x101, None)))
         yield "sw all areq %s %d %d" % (hx(hsh), level, ver)
         yield "sw all ereq %d %d %d" % (1400000000, 1400100000, ver)
     for n, m in ((1, 0), (2, 0), (3, 2), (9, 4), (16, 3), (33, 5)) + (((100, 7),) if big else ()):
@@ -94,14 +101,14 @@ CONFIG.required_theorems = ["lst_no_leak_no_double_free", "lst_succeeds_iff_all_
                              "lst_repeat_after_fault", "tlvp_no_leak_no_double_free", "tlvp_succeeds_iff_all_granted",
                              "tlvp_error_only_after_a_refusal", "tlvp_single_fault", "tlvp_repeat_after_fault", "fault_free_counts"]
 CONFIG.translators = []
-CONFIG.engines = [Engine("c19", ["exec_c19.c"], "drv_c19", gen, trivial=trivial)]
+CONFIG.engines = [Engine("c19", ["exec_c19.c"], "drv_c19", gen, trivial=trivial, wraps=["time"])]
 CONFIG.rule = ("one line per sweep. The executor compiles the SDK's allocation funnel (KSI_malloc / KSI_calloc / KSI_free, base.c) with counting, failing "
                "versions of malloc / calloc / free, so exactly the SDK's own requests are numbered and refused. For a catalogue operation and its "
                "arguments: a fault-free run counts N requests; then for every k = 1..N (every s-th k when N > 700 in the quick tier) and for random "
                "fault sets (each request refused with probability 1/density) a NEW context and NEW inputs are set up without faults, the operation "
                "runs under the fault(s), is repeated on the same context and objects without faults, and everything including the context is freed. "
                "Catalogue: integer lists (lst, list), KSI_TLV parse / nested lists / clone / serialize (tlvp, tlv), KSI_TlvElement, signature parse + "
-               "serialize + clone + identity, internal verification (verifying and non-verifying signatures, with document hash), aggregation and "
+               "serialize + clone + identity, the asynchronous and the high-availability signing service on a scripted socket, internal verification (verifying and non-verifying signatures, with document hash), aggregation and "
                "extension requests through the file transport, KSI_Signature_signAggregated and KSI_Signature_extendTo with honest and refusing "
                "replies (PDU v1 / v2), tree builder with hash and metadata leaves and every leaf's chain, signature builder, publications file parse "
                "+ lookups + serialize, publication strings, HMAC / hashing. Oracle per experiment (Drv/C19.lean entrySpec, on the implementation's "
@@ -119,12 +126,13 @@ CONFIG.trusted_base = [
     "lib/ksiverif/{sig,pdu,pki,pubfile}.py (reference builders of the inputs)"]
 CONFIG.assumptions = [
     "only allocations through the SDK's funnel are refused; OpenSSL's and libc's own allocations (hash contexts, FILE buffers, PKCS7) are not",
-    "not in the catalogue: the asynchronous service and the high-availability service (net_async.c, net_ha.c), HTTP / TCP transports, PKI "
-    "verification of a publications file, block signer signatures — their allocation-failure paths are not exercised",
+    "the asynchronous and high-availability signing services are driven on a scripted socket (one request, honest and refusing reply); not in the "
+    "catalogue: their extending twins, pushed configuration, HTTP transports and the blocking TCP transport, PKI verification of a publications "
+    "file, block signer signatures — their allocation-failure paths are not exercised",
     "random multi-fault sets are sampled, not enumerated",
     "found by this check and repaired in /repo: F31 (wild free in KSI_RequestHandle_new), F33 (tree builder freed an inserted leaf), F34 "
     "(policy result released before it was initialised), F35 (response element leaked by the signature builder), F36 (leaf chain's link list "
-    "leaked); F32 (double free of a hasher, reachable from a calendar chain alone) was met here first and is checked by C03"]
+    "leaked), F37 (KSI_AsyncSigningHandle_new released the caller's hash on failure); F32 (double free of a hasher, reachable from a calendar chain alone) was met here first and is checked by C03"]
 CONFIG.design_ref = "DESIGN.md section 8.6 (C19) and 8.4"
 CONFIG.technique = ("Lean 4 proofs about a heap model of the SDK's list and TLV code under arbitrary allocation-failure plans (partial) + systematic "
                     "single-fault and random multi-fault injection at the SDK's allocation funnel over a catalogue of operations, judged by the "
